@@ -148,7 +148,7 @@ pub(crate) fn parse_part(
             parse_time_part(chars, string)?
         }
         _ => {
-            remove_part(chars.len(), string)?;
+            remove_part(chars.chars().count(), string)?;
             None
         }
     })
@@ -237,7 +237,7 @@ pub(crate) fn parse_date_part(
         },
         'q' => match chars.len() {
             1 | 2 => {
-                remove_part(chars.len(), string)?;
+                remove_part(chars.chars().count(), string)?;
                 None
             }
             3 => {
@@ -312,7 +312,7 @@ pub(crate) fn parse_date_part(
             2 => match string.chars().nth(2) {
                 Some(char) if char.is_ascii_digit() => {
                     // Using unwrap because it's safe to assume that the string is long enough
-                    let day = pick_part::<u32>(3, string, "day of year").unwrap();
+                    let day = pick_part::<u32>(3, string, "day of year")?;
 
                     Some(ParsedPart {
                         value: day as i64,
@@ -340,7 +340,7 @@ pub(crate) fn parse_date_part(
                 Some(char) if char.is_ascii_digit() => match string.chars().nth(2) {
                     Some(char) if char.is_ascii_digit() => {
                         // Using unwrap because it's safe to assume that the string is long enough
-                        let day = pick_part::<u32>(3, string, "day of year").unwrap();
+                        let day = pick_part::<u32>(3, string, "day of year")?;
 
                         Some(ParsedPart {
                             value: day as i64,
@@ -349,7 +349,7 @@ pub(crate) fn parse_date_part(
                     }
                     _ => {
                         // Using unwrap because it's safe to assume that the string is long enough
-                        let day = pick_part::<u32>(2, string, "day of year").unwrap();
+                        let day = pick_part::<u32>(2, string, "day of year")?;
 
                         Some(ParsedPart {
                             value: day as i64,
@@ -369,7 +369,7 @@ pub(crate) fn parse_date_part(
         },
         'e' => parse_wday(chars.len(), string)?,
         _ => {
-            remove_part(chars.len(), string)?;
+            remove_part(chars.chars().count(), string)?;
             None
         }
     })
@@ -693,7 +693,7 @@ pub(crate) fn parse_time_part(
         'X' => parse_zone(chars.len(), string, true)?,
         'x' => parse_zone(chars.len(), string, false)?,
         _ => {
-            remove_part(chars.len(), string)?;
+            remove_part(chars.chars().count(), string)?;
             None
         }
     })
@@ -924,35 +924,59 @@ fn parse_zone(
     })
 }
 
-fn remove_part(length: usize, string: &mut String) -> Result<(), AstrolabeError> {
-    if string.chars().count() < length {
-        Err(create_invalid_format(
-            "String to parse is too short. Please check your format string.".to_string(),
-        ))
-    } else {
-        string.replace_range(0..length, "");
-        Ok(())
+/// Returns the byte index after the first `length` chars of the string, if it has that many
+fn byte_index(string: &str, length: usize) -> Option<usize> {
+    match string.char_indices().nth(length) {
+        Some((index, _)) => Some(index),
+        None if string.chars().count() == length => Some(string.len()),
+        None => None,
     }
 }
 
+/// Removes the first `length` chars of the string
+pub(crate) fn remove_part(length: usize, string: &mut String) -> Result<(), AstrolabeError> {
+    match byte_index(string, length) {
+        Some(index) => {
+            string.replace_range(0..index, "");
+            Ok(())
+        }
+        None => Err(create_invalid_format(
+            "String to parse is too short. Please check your format string.".to_string(),
+        )),
+    }
+}
+
+/// Parses and removes the first `length` chars of the string
 fn pick_part<T: std::str::FromStr>(
     length: usize,
     string: &mut String,
     part_name: &str,
 ) -> Result<T, AstrolabeError> {
-    if string.chars().count() < length {
-        Err(create_invalid_format(
+    match byte_index(string, length) {
+        Some(index) => {
+            let part = string[0..index].parse::<T>().map_err(|_| {
+                create_invalid_format(format!(
+                    "Failed parsing {} from given string. Value is '{}'.",
+                    part_name,
+                    &string[0..index]
+                ))
+            })?;
+            string.replace_range(0..index, "");
+            Ok(part)
+        }
+        None => Err(create_invalid_format(
             "String to parse is too short. Please check your format string.".to_string(),
-        ))
-    } else {
-        let part = string[0..length].parse::<T>().map_err(|_| {
-            create_invalid_format(format!(
-                "Failed parsing {} from given string. Value is '{}'.",
-                part_name,
-                &string[0..length]
-            ))
-        })?;
-        string.replace_range(0..length, "");
-        Ok(part)
+        )),
     }
+}
+
+/// Removes a quoted part of a format string (`'text'`, or `'text` if the closing quote is missing) from the start of the string
+pub(crate) fn remove_escaped_part(part: &str, string: &mut String) -> Result<(), AstrolabeError> {
+    remove_part(unescape_part(part).chars().count(), string)
+}
+
+/// Returns the text of a quoted part of a format string without the enclosing quotes
+pub(crate) fn unescape_part(part: &str) -> &str {
+    let part = part.strip_prefix('\'').unwrap_or(part);
+    part.strip_suffix('\'').unwrap_or(part)
 }
